@@ -242,6 +242,9 @@ func c12Mismatch(t *mon.T, d c12Desc, s *c12Session, r *gen.RandT, roots []cid.C
 		c2 := cfg
 		c2.DataPad = cfg.DataPad + 1 + uint64(r.Intn(9))
 		ms = append(ms, mm{"data-padding-larger", roots, c2})
+		c5 := cfg
+		c5.DataPad = cfg.DataPad + uint64(len(finalized)) + 4096 // the requested data offset lies beyond the end of the file
+		ms = append(ms, mm{"data-padding-beyond-the-file", roots, c5})
 		if cfg.DataPad > 0 {
 			c3 := cfg
 			c3.DataPad = cfg.DataPad - 1
@@ -326,10 +329,10 @@ func init() {
 	Register(&mon.Check{
 		ID:          "C12",
 		Level:       "exploration",
-		Rule:        "interrupt cases: for a put list of n blocks (n ≤ 3 quick / ≤ 5 thorough) ALL 3^(n+1) strings over {continue, Discard+reopen, Finalize+reopen} at the n+1 operation boundaries (random strings for n = 6..15), x 6 (quick) / 10 (thorough) option configurations x {blockstore.OpenReadWrite on a file, storage.OpenReadableWritable on a memfile}; final bytes must equal the uninterrupted session's; some sessions hold one section of exactly / just over 8 MiB (the readers' default section limit, which does not bind writers). mismatch cases: every single-field mismatch (root replaced/removed/added, data padding larger/smaller, wrong version) on a finalized and on an unfinalized file must be rejected with the file byte-identical afterwards",
+		Rule:        "interrupt cases: for a put list of n blocks (n ≤ 3 quick / ≤ 5 thorough) ALL 3^(n+1) strings over {continue, Discard+reopen, Finalize+reopen} at the n+1 operation boundaries (random strings for n = 6..15), x 6 (quick) / 10 (thorough) option configurations x {blockstore.OpenReadWrite on a file, storage.OpenReadableWritable on a memfile}; final bytes must equal the uninterrupted session's; some sessions hold one section of exactly / just over 8 MiB (the readers' default section limit, which does not bind writers). mismatch cases: every single-field mismatch (root replaced/removed/added, data padding larger/smaller/larger than the whole file, wrong version) on a finalized and on an unfinalized file must be rejected with the file byte-identical afterwards",
 		Assumptions: []string{"byte equality only; permuted roots are not a mismatch (documented)", "a storage CAR has no Discard: dropping the object models it"},
 		Gen:         genC12,
 		Run:         runC12,
-		MinCover:    map[string]int{"interruption-strings": 1000, "interrupt:discard": 500, "interrupt:finalize": 500, "mismatch:root-replaced": 10, "mismatch:root-added": 10, "mismatch:data-padding-larger": 10, "mismatch:wrong-version": 10, "api:blockstore": 10, "api:storage": 10, "big-section": 4},
+		MinCover:    map[string]int{"interruption-strings": 1000, "interrupt:discard": 500, "interrupt:finalize": 500, "mismatch:root-replaced": 10, "mismatch:root-added": 10, "mismatch:data-padding-larger": 10, "mismatch:data-padding-beyond-the-file": 10, "mismatch:wrong-version": 10, "api:blockstore": 10, "api:storage": 10, "big-section": 4},
 	})
 }
